@@ -29,7 +29,7 @@ def lst(items):
 
 # capacity parameters used for the dumps: (label, kwargs)
 CONFIGS = {
-    "caltech": [dict(transformer_cap=150), dict(transformer_cap=75), dict(transformer_cap=80.7)],
+    "caltech": [dict(transformer_cap=150), dict(transformer_cap=75), dict(transformer_cap=40.3)],
     "jpl": [dict(first_transformer_cap=45, third_fourth_transformer_cap=150),
             dict(first_transformer_cap=30, third_fourth_transformer_cap=112.5),
             dict(first_transformer_cap=75.3, third_fourth_transformer_cap=200)],
@@ -160,6 +160,15 @@ def classify(site, names, ids, kwargs):
             continue
         r, f = PANEL_TRUTH[k]
         pans.append((d["A"], d["B"], d["C"], r, [i for i, x in enumerate(ids) if f(x)]))
+    # every documented transformer / pod / sub-panel must be present as a constraint: a missing one is
+    # reported as an unclassifiable row (index 9000+), which check_site refuses
+    want_tr, want_pods, want_panels = truth(site, ids, kwargs)
+    if len(trs) != len(want_tr):
+        unknown.append(9000)
+    if len(pods) != len(want_pods):
+        unknown.append(9001)
+    if len(pans) != len(want_panels):
+        unknown.append(9002)
     return trs, prims, pans, pods, sorted(unknown)
 
 
